@@ -1,5 +1,5 @@
 from .. import facts
-from ..rules import image, geometry, codec, status, prefetch, deadcmp, traps
+from ..rules import image, geometry, codec, status, prefetch, deadcmp, traps, region
 
 
 def run(ck):
@@ -25,3 +25,5 @@ def run(ck):
     geometry.r_coordinate_split_floors(ck, P)
     traps.r21_raw_rasterisers_consult_the_clip(ck, P)
     status.r_rectangles_taken_after_the_last_intersection(ck, P)
+    region.r5_15_extents_never_assigned_without_data(ck, P, 'C03-R19')   # pixman_compute_composite_region reports through such a conversion
+    status.r_fill_rows_are_separate(ck, P)
